@@ -349,6 +349,11 @@ func corrC09(c *corrCtx) {
 		}
 		seeds = append(seeds, seed{"icc", d.build()})
 	}
+	// the larger well-formed files as they are (structures at their extremes — 255 ICC chunks, profiles beyond the
+	// buffer size, kilobytes of ancillary segments): a valid file is the first thing that must return within budget
+	for _, s := range seedFiles(r, false) {
+		c09Case(c, "valid/"+s.name, s.format, s.data)
+	}
 	// (a) field matrix
 	perField := 10
 	if c.thorough() {
